@@ -402,15 +402,42 @@ where
     /// Calling `NonContiguousCategoricalDecoderModel::from_iterable_entropy_model(&model)`
     /// is equivalent to calling `model.to_generic_decoder_model()`, where the latter
     /// requires bringing [`IterableEntropyModel`] into scope.
+    ///
+    /// # Panics
+    ///
+    /// Panics if `model.symbol_table()` does not describe a valid entropy model, i.e., if the
+    /// reported intervals are not contiguous or don't add up to `1 << PRECISION` (which
+    /// cannot happen for any of the models provided by `constriction`).
     pub fn from_iterable_entropy_model<'m, M>(model: &'m M) -> Self
     where
         M: IterableEntropyModel<'m, PRECISION, Symbol = Symbol, Probability = Probability> + ?Sized,
     {
         let symbol_table = model.symbol_table();
         let mut cdf = Vec::with_capacity(symbol_table.size_hint().0 + 1);
-        cdf.extend(
-            symbol_table.map(|(symbol, left_sided_cumulative, _)| (left_sided_cumulative, symbol)),
+
+        // `IterableEntropyModel` is a safe trait, so we must not trust the reported cumulatives:
+        // `quantile_function` relies (for memory safety) on a `cdf` that starts at zero and is
+        // strictly increasing up to `1 << PRECISION`. We therefore verify that the intervals
+        // are contiguous, i.e., that each left cumulative is the sum of all previous
+        // probabilities, and that the probabilities add up to `1 << PRECISION`.
+        let mut accum = Probability::zero();
+        let mut laps = 0usize;
+        for (symbol, left_sided_cumulative, probability) in symbol_table {
+            assert!(
+                left_sided_cumulative == accum,
+                "`symbol_table` must yield contiguous intervals starting at zero."
+            );
+            let old_accum = accum;
+            accum = accum.wrapping_add(&probability.get());
+            laps += (accum <= old_accum) as usize;
+            cdf.push((left_sided_cumulative, symbol));
+        }
+        assert!(
+            accum == wrapping_pow2(PRECISION)
+                && laps == (PRECISION == Probability::BITS) as usize,
+            "The probabilities in `symbol_table` must add up to `1 << PRECISION`."
         );
+
         cdf.push((
             wrapping_pow2(PRECISION),
             cdf.last().expect("`symbol_table` is not empty").1.clone(),
